@@ -45,18 +45,29 @@ def shapes(rng, d):
         ("object+allOf", {"type": "object", "title": "Obj", "allOf": [{"minProperties": 0}], "default": d}),
         ("all-comp", {"anyOf": [sub], "oneOf": [sub2], "allOf": [{}], "not": {"const": "zz"}, "default": d}),
     ]
-    return out
+    return [(label, s, copy.deepcopy(sub2)) for label, s in out]
 
 
-def wrap(rng, s):
-    """put schema s in a random position of an outer schema; returns (outer, accessor path)"""
-    k = rng.choice(["root", "property", "property-renamed", "items", "tuple", "additionalProperties", "anyOf-member", "definitions"])
+LOOKALIKE = {False: 0, True: 1, 0: False, 1: True}
+
+
+def wrap(rng, s, twin=None):
+    """put schema s in a random position of an outer schema, next to unrelated schemas that are
+    identical to a sub-schema of s (twin) or differ from s only by a look-alike default;
+    returns (outer, accessor path)"""
+    twin = twin if twin is not None else {"type": "string"}
+    k = rng.choice(["root", "property", "property", "property-renamed", "items", "tuple", "additionalProperties", "anyOf-member", "definitions"])
     if k == "root":
         return s, ("root",)
     if k == "property":
-        return {"type": "object", "title": "Outer", "properties": {"p": s, "q": {"type": "string"}}}, ("prop", "p")
+        d = s.get("default")
+        q = copy.deepcopy(twin)
+        if isinstance(d, (bool, int)) and d in LOOKALIKE and rng.random() < 0.6:
+            q = copy.deepcopy(s)
+            q["default"] = LOOKALIKE[d] if not isinstance(d, bool) else int(d)
+        return {"type": "object", "title": "Outer", "properties": {"q0": copy.deepcopy(twin), "p": s, "q": q}}, ("prop", "p")
     if k == "property-renamed":
-        return {"type": "object", "title": "Outer", "properties": {"class": s, "q": {"type": "string"}}}, ("prop", "class_")
+        return {"type": "object", "title": "Outer", "properties": {"class": s, "q": copy.deepcopy(twin)}}, ("prop", "class_")
     if k == "items":
         return {"type": "array", "items": s}, ("items",)
     if k == "tuple":
@@ -138,8 +149,8 @@ def run(tier, seed, replay=None):
         n_rounds = 2 if tier == "quick" else 20
         for _ in range(n_rounds):
             for d in DEFAULTS:
-                for label, s in shapes(rng, d):
-                    outer, path = wrap(rng, copy.deepcopy(s))
+                for label, s, twin in shapes(rng, d):
+                    outer, path = wrap(rng, copy.deepcopy(s), twin)
                     todo.append((label, outer, path, d))
     corr_items = []
     for label, outer, path, d in todo:
@@ -165,6 +176,14 @@ def run(tier, seed, replay=None):
             res.violation(dict(payload, kind="oracle", what="parsed element %s carries default %r instead of %r" % (
                 repr(target)[:120], got if has_default(target) else "<none>", d)))
             continue
+        # 1b. a sibling that differs only by a look-alike default (false/0, true/1) keeps its own
+        if path[0] == "prop" and isinstance(outer.get("properties", {}).get("q"), dict) and "default" in outer["properties"]["q"]:
+            qd = outer["properties"]["q"]["default"]
+            qe = root.properties["q"].element
+            if not has_default(qe) or not strict_eq(qe.default, qd):
+                res.violation(dict(payload, kind="oracle", what="sibling property declares default %r but its element carries %r" % (
+                    qd, getattr(qe, "default", None) if has_default(qe) else "<none>")))
+                continue
         # 2. not moved / shared: no other element of the tree shows it unless its own schema declares one
         all_elems, _ = walk(root)
         for x in elems[1:]:
